@@ -1,4 +1,5 @@
 import Ctap.Request
+import Ctap.Frame
 import Ctap.Cfg
 import Gen
 /-
@@ -40,5 +41,27 @@ def reqTables (c : Cfg) : ReqTables :=
     statusInvalidCommand := Gen.statusInvalidCommand, statusMissing := Gen.statusMissing,
     statusOther := Gen.statusOtherCbor,
     reqTy := fun v => (Gen.reqRoles c).lookup v }
+
+/-- `GetNextAssertion` shares the `GetAssertion` response type -/
+def respRole (variant : String) : String :=
+  if variant = "GetNextAssertion" then "GetAssertion" else variant
+
+/-- the body schema of a response variant, `none` for parameter-less responses -/
+def respBodyTy (c : Cfg) (variant : String) : Option (Option Ty) :=
+  match Gen.respSwitch.lookup variant with
+  | none => none
+  | some false => some none
+  | some true =>
+    match (Gen.respRoles c).lookup (respRole variant) with
+    | some t => some (some t)
+    | none => none
+
+/-- `ctap2::Response::serialize::<cap>` interpreted over the generated variant switch -/
+def respSerialize (c : Cfg) (variant : String) (v : Val) (cap : Nat) (prior : List Byte) :
+    Outcome (List Byte) :=
+  match respBodyTy c variant with
+  | none => .panic
+  | some none => responseSerialize (UInt8.ofNat Gen.statusSerializeError) none cap prior
+  | some (some t) => responseSerialize (UInt8.ofNat Gen.statusSerializeError) (some [encode t v]) cap prior
 
 end Gen
